@@ -124,10 +124,14 @@ def stub_lines(args, test):
         shutil.rmtree(d, ignore_errors=True)
 
 
-def segment_case(ck, n, x, seed, ignore, nruns, family, njobs=1, extra=''):
+def segment_case(ck, n, x, seed, ignore, nruns, family, njobs=1, extra='', prefix='', eff=None):
     # extra: further options AFTER the counts and the seed (file names that spell -n9, -x7, -r ...)
-    args = ('-n %d ' % n if n is not None else '') + ('-x %d ' % x if x is not None else '') + '-r %d' % seed + extra
+    # prefix: options BEFORE them (the same option given earlier in another spelling: the LAST occurrence counts, for the
+    # program - getopt - and for the wrapper alike); eff: the (n, x) in force when `extra` repeats them after the seed
+    args = prefix + ('-n %d ' % n if n is not None else '') + ('-x %d ' % x if x is not None else '') + '-r %d' % seed + extra
     nn, xx = (2000 if n is None else n), (1 if x is None else x)
+    if eff:
+        nn, xx = eff
     emitted = len(range(0, nn, xx)) + 1
     runs = [stub_lines(args.replace('-r %d' % seed, '-r %d' % (seed + i)), TEXT) for i in range(nruns)]
 
@@ -296,6 +300,13 @@ def main():
     cases.append(segment_case(ck, 6, 2, 11, -2, 2, 'file-names', extra=' -F log-n9-x7-r.txt'))
     cases.append(segment_case(ck, 5, None, 3, 1, 3, 'file-names', njobs=2, extra=" -G 'out -n 40 -x 9/g-r77.lt'"))
     cases.append(segment_case(ck, None, 500, 8, -1, 1, 'file-names', extra=' -A parses-new-x.prs'))
+    # -n / -x given twice in different spellings ('-x3' attached, '-x 1' separated), in both orders: the last one counts
+    cases.append(segment_case(ck, 6, 1, 5, -1, 2, 'mixed-spellings', prefix='-x3 '))
+    cases.append(segment_case(ck, 6, 1, 5, 6, 2, 'mixed-spellings', prefix='-x3 '))
+    cases.append(segment_case(ck, 4, 2, 9, -2, 2, 'mixed-spellings', prefix='-n6 ', njobs=2))
+    cases.append(segment_case(ck, 6, 3, 7, -1, 2, 'mixed-spellings', prefix='-x1 '))
+    cases.append(segment_case(ck, 6, 1, 5, -1, 2, 'mixed-spellings', extra=' -x3', eff=(6, 3)))
+    cases.append(segment_case(ck, 6, 3, 4, 2, 1, 'mixed-spellings', extra=' -n4 -x 1 -x2', eff=(4, 2)))
     # the fixed seed 0 (run i works with seed 0 + i, like any other seed), for several job counts
     for nj in (1, 3):
         cases.append(segment_case(ck, 6, 2, 0, -2, 3, 'seed-zero', njobs=nj))
